@@ -294,6 +294,11 @@ def check(ix, rep):
     from sa.rules import ownrule as _own
     _nown = _own.run(ix, rep)
     rep.floor('functions in the ownership analysis', _nown, 250)
+    # each specification has an interpreter of its own (no caching decorator on the factories, no shared state in the offline modules compared here)
+    from sa.rules import globals as _G19
+    _G19.fixture_selfcheck(rep)
+    rep.floor('offline modules scanned for shared state', _G19.run_global(ix, rep, prefix='rtamt.semantics.stl.dense_time.offline') + _G19.run_global(ix, rep, prefix='rtamt.semantics.abstract_dense_time_offline')
+              + _G19.run_global(ix, rep, prefix='rtamt.semantics.stl.discrete_time.offline') + _G19.run_global(ix, rep, prefix='rtamt.semantics.abstract_discrete_time_offline'), 5)
     explanation = __doc__.split('\n\n', 1)[1].strip().replace('\n', ' ')
     assumptions = ['the time-stamp of sample k is k * period, expressed in the default unit of the specification (premise of the property)',
                    'hand lemma: nesting -- on grid-aligned inputs every break-point of a dense result is T[k] +- a bound, again a grid point, so the argument composes',
